@@ -140,6 +140,18 @@ pub fn gen_pkg_named(rng: &mut Rng, idx: usize, prefix: &str, pkg_name: &str) ->
             };
             members.push(Member::Method { name: "m".into(), access: Access::Pub, is_static: false, kind: FnKind::DeclLike, f });
           }
+          if rng.chance(1, 3) {
+            // parameter properties, now and then on the implementation behind overload signatures
+            let mut params = vec![];
+            for k in 0..1 + rng.below(2) {
+              let acc = *rng.pick(&[Access::Pub, Access::Prot, Access::Pub]);
+              params.push((Param { name: format!("cp{}", k), opt: false, rest: false, ty: Some(ty_with(rng, &others, &mut refs)), dflt: None }, Some((acc, rng.chance(1, 2)))));
+            }
+            if rng.chance(1, 2) {
+              params.push((Param { name: "plain".into(), opt: false, rest: false, ty: Some("number".into()), dflt: None }, None));
+            }
+            members.push(Member::Ctor { access: Access::Pub, params, calls_super: false, overloads: if rng.chance(1, 2) { 1 + rng.below(2) } else { 0 } });
+          }
           DeclKind::Class { extends: None, implements: vec![], members }
         }
         "interface" => {
